@@ -688,6 +688,14 @@ class Body:
                 if pp_ is None or toks[pp_].k != 'id' or toks[pp_].t in ('return',):
                     i += 1      # global scope resolution  ::f  ->  f
                     continue
+            if t.k == 'id' and t.t == 'sizeof':
+                a1 = next_sig(toks, i)
+                if a1 is not None and toks[a1].t == '(':
+                    a2 = next_sig(toks, a1); a3 = next_sig(toks, a2) if a2 is not None else None
+                    if a2 is not None and a3 is not None and toks[a2].k == 'id' and toks[a3].t == ')' and toks[a2].t in tm and tm[toks[a2].t] != toks[a2].t:
+                        out.extend([t, toks[a1], T('id', tm[toks[a2].t]), toks[a3]])      # sizeof(NestedType) -> its C name
+                        i = a3 + 1
+                        continue
             if t.k == 'id' and t.t == 'nullptr':
                 out.append(T('id', 'NULL')); i += 1; continue
             if t.k == 'id' and t.t == 'constexpr':
@@ -888,6 +896,20 @@ class Body:
         words = tstr.replace('const ', '').replace('static ', '').strip()
         if toks[after].t == '(' and words not in tm and words not in BASE_TYPEMAP and words != 'auto':
             return None     # a call like  foo bar( ... ) cannot be told from a declaration without a known type
+        if toks[after].t == '(' and words in tm and tm[words] in ctx.get('ctor_calls', {}):
+            # R15: local object constructed with arguments
+            e = match_fwd(toks, after)
+            semi = next_sig(toks, e)
+            if toks[semi].t != ';': return None
+            cty0 = tm[words]
+            ctor = ctx['ctor_calls'][cty0]
+            new = toks[:s] + [T('id', cty0), T('ws', ' '), T('id', '@@' + name), T('op', ';'), T('ws', ' '), T('id', '@@CALL@@' + ctor['fn']), T('op', '('), T('op', '&'), T('id', '@@' + name)] \
+                  + ([T('op', ','), T('ws', ' ')] + toks[after + 1:e] if strip_ws(toks[after + 1:e]) else []) + [T('op', ')'), T('op', ';')] + toks[semi + 1:]
+            self.toks = new
+            ctx['locals'][name] = cty0
+            if ctor.get('throws'): ctx['throwers'].add(ctor['fn'])
+            self.fire('R15obj')
+            return s + 3
         static = 'static ' if tstr.startswith('static ') or ' static ' in tstr else ''
         tstr2 = tstr.replace('static ', '')
         if words == 'auto':
@@ -984,7 +1006,7 @@ class Body:
         out = []
         for i, t in enumerate(toks):
             if t.k == 'id':
-                if t.t in ('@@SIZEOF', '@@ELEM'):
+                if t.t in ('@@SIZEOF', '@@ELEM') or t.t.startswith('@@CALL@@'):
                     out.append(t); continue
                 if t.t.startswith('@@') and t.t[2:] and t.t[2:].isidentifier():
                     out.append(T('id', t.t[2:])); continue
@@ -1424,6 +1446,22 @@ def rewrite_views(text, views):
             out = re.sub(X + r'\s*\.\s*front\s*\(\s*\)', r'\g<x>.data[0]', out)
             out = re.sub(X + r'\s*\.\s*back\s*\(\s*\)', r'\g<x>.data[\g<x>.size - 1]', out)
             out = re.sub(X + r'\s*\[', r'\g<x>.data[', out)
+        elif kind == 'vecptr':
+            # std::vector<std::unique_ptr<T>> modelled as a vector of T owned by the vector: element i is the pointer &data[i]
+            out = re.sub(X + r'\s*\.\s*(?:size|length)\s*\(\s*\)', r'\g<x>.size', out)
+            def _vp(m_):
+                st = m_.end(); d_ = 1; k_ = st
+                return None
+            while True:
+                m_ = re.search(X + r'\s*\[', out)
+                if not m_: break
+                st = m_.end(); d_ = 1; k_ = st
+                while d_:
+                    if out[k_] == '[': d_ += 1
+                    elif out[k_] == ']': d_ -= 1
+                    k_ += 1
+                out = out[:m_.start()] + '(&' + m_.group('x') + '.@@DATA@@[' + out[st:k_ - 1] + '])' + out[k_:]
+            out = out.replace('.@@DATA@@[', '.data[')
         elif kind == 'arr':
             out = re.sub(X + r'\s*\.\s*data\s*\(\s*\)', r'\g<x>.e', out)
             out = re.sub(X + r'\s*\.\s*size\s*\(\s*\)', r'(sizeof(\g<x>.e)/sizeof(\g<x>.e[0]))', out)
@@ -1494,6 +1532,7 @@ def extract_function(fn, unit, repo, filecache, contracts):
         'params': params, 'cls': cls, 'static': static, 'fn': fn, 'locals': {}, 'refs': set(p['name'] for p in params if p['is_ref']),
         'calls': dict(unit.get('calls', {})), 'scoped': unit.get('scoped', {}), 'throwing_calls': unit.get('throwing_calls', ()),
         'auto_checks': [],
+        'ctor_calls': unit.get('ctor_calls', {}),
         'statics': dict({nm: '%s_%s' % (cls, nm) for nm in unit.get('statics', {}).get(cls, [])} if cls else {}, **{nm.split('::')[-1]: cn for (nm, cn) in unit.get('global_names', []) if cls and nm.startswith(cls + '::')}),
         'struct_names': list(unit.get('members', {}).keys()),
         'all_members': unit.get('members', {}),
@@ -1570,6 +1609,7 @@ def extract_function(fn, unit, repo, filecache, contracts):
     views = list(unit.get('views', [])) + list(fn.get('views', []))
     def _vk(ct):
         ct = ct.replace('const ', '').strip()
+        if ct in unit.get('vecptr_types', ()): return 'vecptr'
         if ct.startswith('vec_'): return 'vec'
         if ct == 'str': return 'str'
         if ct.startswith('arr_'): return 'arr'
